@@ -16,7 +16,7 @@ import subprocess
 import sys
 
 HERE = os.path.dirname(os.path.abspath(__file__))
-WT = "/tmp/rv-seed-wt"
+WT = f"/tmp/rv-seed-wt-{os.getpid()}"
 
 
 def sh(cmd, **kw):
